@@ -1,7 +1,7 @@
 ------------------------------- MODULE AllProps -------------------------------
 (* All property clauses, conjoined: what the trace specification evaluates at every recorded step. *)
-EXTENDS PropsStaking
+EXTENDS PropsMarkets
 
 LeanProps == C07_Step /\ C09_Step /\ C10_Step
-StepProps == LedgerProps /\ C09_Step /\ C10_Step /\ StakingStep
+StepProps == LedgerProps /\ C09_Step /\ C10_Step /\ StakingStep /\ MarketsStep
 =============================================================================
